@@ -3,32 +3,49 @@ import FontVerif.Model.Base
 import FontVerif.Model.Interp
 import FontVerif.Model.Composite
 import FontVerif.Model.Charstring
+import FontVerif.Model.InterpLoops
 namespace FontVerif.Drv.C02
 open FontVerif FontVerif.Interp
 
 def progName (p : Nat) : String := if p = 0 then "Font" else if p = 1 then "ControlValue" else "Glyph"
 
-def mkCfg (font cv glyph : List Nat) (limit : Nat) (ped : Bool) : Cfg Nat :=
+open FontVerif.InterpLoops in
+def mkCfg (font cv glyph : List Nat) (limit : Nat) (ped : Bool) : Cfg G :=
   { font := font.toArray, cv := cv.toArray, glyph := glyph.toArray, limit := limit, pedantic := ped,
-    sem := semSubset ped }
+    sem := semLoops ped }
 
-def renderErr (stage : String) (s : St Nat) (e : Err) : String :=
-  s!"{stage}:err:{e.name}:{progName s.current}:{s.pc}"
+/-- `HintErrorKind` names of the data-opcode errors of Model/InterpLoops.lean -/
+def errName (e : Err) : String :=
+  match e with
+  | .data 1001 => "InvalidPointIndex"
+  | .data 1002 => "InvalidPointRange"
+  | .data 1003 => "InvalidContourIndex"
+  | .data 1004 => "InvalidZoneIndex"
+  | .data 1005 => "NegativeLoopCounter"
+  | .data 1006 => "InvalidStackValue"
+  | .data 1007 => "InvalidCvtIndex"
+  | e => e.name
 
-/-- `interp <limitFontCv> <limitGlyph> <stackCap> <nFuncs> <nIdefs> <fpgm> <prep> <glyph|none>`:
+def renderErr {D} (stage : String) (s : St D) (e : Err) : String :=
+  s!"{stage}:err:{errName e}:{progName s.current}:{s.pc}"
+
+open FontVerif.InterpLoops in
+/-- `interp <limitFontCv> <limitGlyph> <stackCap> <nFuncs> <nIdefs> <glyphPoints> <twilightPoints> <cvtLen> <fpgm> <prep> <glyph|none>`:
     HintInstance::reconfigure (font program, then control value program on the same engine — the value stack is
-    not cleared in between) and, when a glyph program is given, HintInstance::hint in pedantic mode. -/
-def interp (limFC limG cap nF nI : Nat) (font cv : List Nat) (glyph : Option (List Nat)) : String :=
+    not cleared in between, the graphics state is reset; the glyph zone is empty) and, when a glyph program is given,
+    HintInstance::hint in pedantic mode on a glyph with `glyphPoints` points (+ 4 phantom points) in one contour. -/
+def interp (limFC limG cap nF nI nPts nTwi nCvt : Nat) (font cv : List Nat) (glyph : Option (List Nat)) : String :=
   let c := mkCfg font cv [] limFC false
   let blank : List Def := (List.range nF).map (fun _ => {})
   let blankI : List Def := (List.range nI).map (fun _ => {})
-  let s1 := run c (initSt 0 blank blankI [] cap)
+  let g0 : G := { cap := cap, twiPts := nTwi, cvtLen := nCvt, ppem := 16 }
+  let s1 := run c (initSt 0 blank blankI [] { g0 with bc := true })
   match s1.status with
   | .failed e => renderErr "new" s1 e
   | .stuck => "stuck"
   | .running => "running"
   | .done =>
-    let s2 := run c (initSt 1 s1.funcs s1.idefs s1.vs cap)
+    let s2 := run c (initSt 1 s1.funcs s1.idefs s1.vs g0)
     match s2.status with
     | .failed e => renderErr "new" s2 e
     | .stuck => "stuck"
@@ -38,7 +55,8 @@ def interp (limFC limG cap nF nI : Nat) (font cv : List Nat) (glyph : Option (Li
       | none => "ok"
       | some g =>
         let cg := mkCfg font cv g limG true
-        let s3 := run cg (initSt 2 s2.funcs s2.idefs [] cap)
+        let gg : G := { g0 with glyphPts := nPts + 4, glyphContours := [nPts - 1] }
+        let s3 := run cg (initSt 2 s2.funcs s2.idefs [] gg)
         match s3.status with
         | .failed e => renderErr "draw" s3 e
         | .stuck => "stuck"
@@ -120,14 +138,14 @@ end CS
 
 def handle (cmd : String) (args : List String) : Option String :=
   match cmd, args with
-  | "interp", [a, b, cp, nf, ni, f, p, g] =>
-    match parseNat? a, parseNat? b, parseNat? cp, parseNat? nf, parseNat? ni, parseHex? f, parseHex? p with
-    | some a, some b, some cp, some nf, some ni, some f, some p =>
-      if g = "none" then some (interp a b cp nf ni f p none)
+  | "interp", [a, b, cp, nf, ni, np, nt, nc, f, p, g] =>
+    match parseNats? [a, b, cp, nf, ni, np, nt, nc], parseHex? f, parseHex? p with
+    | some [a, b, cp, nf, ni, np, nt, nc], some f, some p =>
+      if g = "none" then some (interp a b cp nf ni np nt nc f p none)
       else match parseHex? g with
-        | some g => some (interp a b cp nf ni f p (some g))
+        | some g => some (interp a b cp nf ni np nt nc f p (some g))
         | none => some "bad-args"
-    | _, _, _, _, _, _, _ => some "bad-args"
+    | _, _, _ => some "bad-args"
   | "composite", [g, spec] =>
     match parseNat? g, (spec.splitOn ",").mapM parseGlyph with
     | some g, some gs => some (composite g gs.toArray)
